@@ -198,16 +198,21 @@ def race_job(job, ev, ctx):
             if key not in seen:
                 seen.add(key)
                 viol.append({'kind': 'race', 'key': 'race ' + key, 'what': 'data race involving library code at ' + key, 'detail': b[:6000]})
-    if p.returncode != 0 and not blocks:
-        if 'panic:' in out or 'fatal error:' in out:
+    crashed = False
+    if p.returncode != 0 and ('panic:' in out or 'fatal error:' in out):
+        # the test binary died: with library frames on the panicking stack it is the library's doing
+        if re.search(r'go\.nanomsg\.org/mangos/v3[^\n]*\n\s+/repo/', out):
+            crashed = True
             viol.append({'kind': 'crash', 'key': 'crash concurrent', 'what': 'process crashed under concurrent use: ' +
                          (re.search(r'(panic:[^\n]*|fatal error:[^\n]*)', out).group(1)), 'detail': out[-8000:]})
-        else:
-            raise api['Infra']('race run failed:\n' + out[-3000:])
+        elif not blocks:
+            raise api['Infra']('race run died outside the library:\n' + out[-3000:])
+    elif p.returncode != 0 and not blocks:
+        raise api['Infra']('race run failed:\n' + out[-3000:])
     ev['drivers'].append({'test': '+'.join(tests) + ' (-race)', 'race_reports': len(blocks), 'wall_s': 0})
     # the tallies of the concurrent driver are validated like any other trace
     tf = outdir + '/conc.ndjson'
-    if os.path.exists(tf):
+    if os.path.exists(tf) and not crashed:      # (a process that died left no complete tallies)
         traces = api['load_traces'](tf)
         import json
         for st in json.load(open(outdir + '/conc.status.json')):
